@@ -894,7 +894,10 @@ impl ProtocolState {
                         }
                     }
                     MqttPacket::Publish(publish) => {
-                        if publish.duplicate {
+                        // a retransmitted publish that is already in the unacked publish table (its
+                        // PUBREL was being encoded) gets re-queued together with that table below
+                        let is_pending_publish = self.pending_publish_operations.values().any(|pending_id| *pending_id == id);
+                        if publish.duplicate && !is_pending_publish {
                             self.resubmit_operation_queue.push_front(id);
                         } else if publish.qos == QualityOfService::ExactlyOnce && operation.qos2_pubrel.is_some() {
                             self.high_priority_operation_queue.push_front(id);
